@@ -39,7 +39,7 @@ import (
 )
 
 func init() {
-	components["mcast"] = &component{gen: mcastGen, enum: mcastEnum, run: mcastRun}
+	components["mcast"] = &component{gen: mcastGen, enum: mcastEnum, run: mcastRun, direct: mcastDirect}
 }
 
 var (
